@@ -423,8 +423,19 @@ def bounded_requery(seed, n_per):
             try:
                 A, Bb = O.to_lib(x, "float"), O.to_lib(y, "float")
                 A0, B0 = copy.deepcopy(A), copy.deepcopy(Bb)
+                if order == 1:
+                    # the tolerance is part of the state a query must leave alone; at the default setting a reset to the default would go unseen
+                    g.set_sig_figures(8)
+                    try:
+                        g.intersection(copy.deepcopy(A), copy.deepcopy(Bb))
+                        cfg = (g.get_eps(), g.get_sig_figures())
+                    finally:
+                        g.set_eps()
+                    if cfg[1] != 8 or abs(cfg[0] - 1e-8) > 1e-17:
+                        acc.fail("config:" + klass, "intersection changed the tolerance: after set_sig_figures(8) and one query get_eps() = %r, get_sig_figures() = %r" % cfg, dict(a=B.ser(x), b=B.ser(y), first="config"))
                 r1 = g.intersection(A, Bb)
             except Exception as e:
+                g.set_eps()
                 continue  # (raising is C01-C04's business)
             if r1 is None or not hasattr(r1, "move") or (mutable_ids(r1) & (mutable_ids(A) | mutable_ids(Bb))):
                 continue  # a pass-through result is the operand itself: mutating it changes the question
